@@ -192,4 +192,16 @@ theorem terminating_pod_counter :
   refine ⟨⟨by decide, ⟨by decide, by decide, by decide⟩, ⟨by decide, by decide, by decide⟩, by decide, by decide, by decide⟩,
     ⟨by decide, by decide, by decide⟩, by decide, by decide⟩
 
+/-! ### a reload reads the store, not a cache of it -/
+
+/-- `listFloatingIPs` - the list `ConfigurePool` rebuilds the allocated table from on every reload and restart - is a
+    LIST against the API server (regenerated: no informer, lister, indexer or store is consulted), so the model's
+    `listed` is the store itself.  The model keeps what a FloatingIP informer would show (`State.vFips`, move `fipSync`);
+    a `listFloatingIPs` served from that cache would make `listed` read it instead, and a reload with a lagging cache
+    would bring back an earlier owner of an address a live pod holds (the harness runs most reloads with a lagging
+    cache: op `fipsync`). -/
+theorem fact_reload_lists_apiserver :
+    Generated.Plugin.reloadListsApiserver = true ∧ ∀ s : State, listed s = s.store ++ s.orphans :=
+  ⟨by decide, fun _ => rfl⟩
+
 end Galaxy.Props.C01
